@@ -378,7 +378,44 @@ func (g *gen) session() structs.Session {
 	return s
 }
 
+// lockDelayScript: a session with a lock delay takes a key and is then invalidated (destroyed, or
+// its node deregistered), which puts the key into the server-local lock-delay map; right after that
+// another session asks for the same key. Whether that lock is granted must not depend on the map.
+func (g *gen) lockDelayScript() ([]byte, string) {
+	node := "n1"
+	s1, s2 := sessIDs[g.r.Intn(2)], sessIDs[2]
+	key := g.pick([]string{"a", "a/b", "ab"})
+	reg := mp(structs.RegisterRequestType, &structs.RegisterRequest{Datacenter: "dc1", Node: node, Address: "10.0.0.1"})
+	mk := func(id string, delay time.Duration, beh structs.SessionBehavior) []byte {
+		return mp(structs.SessionRequestType, &structs.SessionRequest{Datacenter: "dc1", Op: structs.SessionCreate,
+			Session: structs.Session{ID: id, Name: "s", Node: node, LockDelay: delay, Behavior: beh}})
+	}
+	lock := func(id string) []byte {
+		return mp(structs.KVSRequestType, &structs.KVSRequest{Datacenter: "dc1", Op: api.KVLock,
+			DirEnt: structs.DirEntry{Key: key, Value: []byte("v"), Session: id}})
+	}
+	beh := hx.Pick(g.r, []structs.SessionBehavior{structs.SessionKeysRelease, structs.SessionKeysDelete})
+	g.make("node", node)
+	g.make("session", s2)
+	g.queue = append(g.queue,
+		queued{mk(s1, 15*time.Second, beh), "script:session-create-lockdelay"},
+		queued{mk(s2, 0, structs.SessionKeysRelease), "script:session-create"},
+		queued{lock(s1), "script:kv-lock"})
+	if g.r.Chance(70) {
+		g.queue = append(g.queue, queued{mp(structs.SessionRequestType, &structs.SessionRequest{Datacenter: "dc1", Op: structs.SessionDestroy,
+			Session: structs.Session{ID: s1}}), "script:session-destroy"})
+	} else {
+		g.queue = append(g.queue, queued{mp(structs.TxnRequestType, &structs.TxnRequest{Datacenter: "dc1", Ops: structs.TxnOps{
+			{Session: &structs.TxnSessionOp{Verb: api.SessionDelete, Session: structs.Session{ID: s1}}}}}), "script:txn-session-delete"})
+	}
+	g.queue = append(g.queue, queued{lock(s2), "script:kv-lock-after-delay"})
+	return reg, "script:register"
+}
+
 func (g *gen) genSession() ([]byte, string) {
+	if (g.profile == "kv" || g.profile == "mixed") && g.r.Chance(30) {
+		return g.lockDelayScript()
+	}
 	req := structs.SessionRequest{Datacenter: "dc1"}
 	switch g.r.Intn(10) {
 	case 0, 1, 2, 3, 4, 5:
